@@ -473,6 +473,12 @@ func (p *parser) resetInsertionMode() {
 		case a.Template:
 			// TODO: remove this divergence from the HTML5 spec.
 			if n.Namespace != "" {
+				if last {
+					// Fragment case: the context element is a foreign
+					// element named "template".
+					p.im = inBodyIM
+					return
+				}
 				continue
 			}
 			p.im = p.templateStack.top()
